@@ -4,7 +4,7 @@
    slices of the requested axes). M = the gorgonia-faithful models in Check/CheckC09.v (argmax_go,
    reduce_axis_go); their deviations from S are the three known-finding classes. *)
 From Coq Require Import Reals List ZArith Bool String.
-From V Require Import SoftmaxSpec SoftmaxProofs CheckC09 ReduceProofs.
+From V Require Import SoftmaxSpec SoftmaxProofs CheckC09 ReduceProofs ReduceRefines Ival IvalProofs FexecProofs.
 Import ListNotations.
 
 (* Softmax over the reals, for every non-empty slice of any length and any values: every entry is
@@ -50,6 +50,30 @@ Theorem C09_keepdims_rank s A : List.length (out_shape s A true) = List.length s
 Proof. exact (out_shape_keepdims s A). Qed.
 Theorem C09_dropdims_rank s A : NoDup A -> (forall a, In a A -> (a < List.length s)%nat) -> List.length (out_shape s A false) = (List.length s - List.length A)%nat.
 Proof. exact (out_shape_length_drop s A). Qed.
+
+(* M REFINES S outside the known classes: ArgMax on data without NaN / +Inf (every rank, axis, keepdims),
+   ReduceMax / ReduceMin of rank <= 3 over every set of axes in every spelling and order (well-formed
+   NaN-free payload without both signed zeros, no repeated axis): the gorgonia-faithful model returns
+   exactly the tensor S names, or an error exactly where S demands one *)
+Theorem C09_model_refines_spec c :
+  (is_op (Case.oc_op c) "ArgMax" || is_op (Case.oc_op c) "ReduceMax" || is_op (Case.oc_op c) "ReduceMin")%bool = true ->
+  known_class c = None -> reduce_side_b c = true -> ShapeOpsProofs.refines (spec c) (model c).
+Proof. exact (c09_refines_b c). Qed.
+Print Assumptions C09_model_refines_spec.
+
+(* S of the softmax family is sound for floating point: ANY execution of exp(x-m)/sum exp(x-m) in which
+   every primitive result is within its allowance of the exact value computed from the previous rounded
+   values yields outputs inside the enclosures the check judges against (likewise (x-m) - ln sum) *)
+Theorem C09_softmax_enclosures_sound w px pm xs m :
+  Forall2 encl px xs -> encl pm m ->
+  forall zs es s inv outs, soft_prefix w px pm xs m zs es s -> near w 1 (1 / s)%R inv ->
+  Forall2 (fun e o => near w 1 (e * inv)%R o) es outs -> Forall2 encl (soft_slice w false px pm) outs.
+Proof. exact (fexec_softmax w px pm xs m). Qed.
+Theorem C09_logsoftmax_enclosures_sound w px pm xs m :
+  Forall2 encl px xs -> encl pm m ->
+  forall zs es s l outs, soft_prefix w px pm xs m zs es s -> near w 8 (ln s) l ->
+  Forall2 (fun z o => near w 1 (z - l)%R o) zs outs -> Forall2 encl (soft_slice w true px pm) outs.
+Proof. exact (fexec_logsoftmax w px pm xs m). Qed.
 
 Open Scope string_scope.
 Open Scope Z_scope.
